@@ -203,7 +203,7 @@ End COUNT.
 (* ------------------------------------------------------------------------------------------ *)
 (* a plain sub-query  Query.from_(t1)[.from_(t2)].select(..)[.where(..)];  sq_ns = its own with_namespace decision
    (several FROM tables, or a WHERE that mentioned a foreign table when it was built) *)
-Record subq := { sq_from : list tref; sq_selects : list term; sq_where : option term; sq_ns : bool }.
+Record squery := { sq_from : list tref; sq_selects : list term; sq_where : option term; sq_ns : bool }.
 
 Inductive wterm :=
 | WT (t : term)
@@ -213,27 +213,27 @@ Inductive wterm :=
 | WExtract (part : string) (field : term) (alias : option string)                  (* functions.Extract *)
 | WPeriod (t lo hi : term) (alias : option string)                                 (* PeriodCriterion *)
 | WNested (c : cmp) (nc : bop) (l r n : term) (alias : option string)              (* NestedCriterion *)
-| WSubq (q : subq) (alias : option string)                                         (* a sub-query used as a term *)
-| WInSub (t : term) (q : subq) (negated : bool) (alias : option string)            (* t IN (sub-query) *)
-| WCmpSub (c : cmp) (l : term) (q : subq) (alias : option string)                  (* l <cmp> (sub-query) *)
-| WExists (q : subq).                                                              (* ExistsCriterion *)
+| WSubq (q : squery) (alias : option string)                                         (* a sub-query used as a term *)
+| WInSub (t : term) (q : squery) (negated : bool) (alias : option string)            (* t IN (sub-query) *)
+| WCmpSub (c : cmp) (l : term) (q : squery) (alias : option string)                  (* l <cmp> (sub-query) *)
+| WExists (q : squery).                                                              (* ExistsCriterion *)
 
 Inductive source :=
 | SrcTable (t : tref)
-| SrcSub (q : subq) (alias : option string)       (* a sub-query in FROM / JOIN *)
+| SrcSub (q : squery) (alias : option string)       (* a sub-query in FROM / JOIN *)
 | SrcNamed (name : string).                       (* AliasedQuery *)
 
-Inductive join :=
+Inductive qjoin :=
 | JCross (item : source)                                       (* Join *)
 | JOn (how : string) (item : source) (crit : wterm)            (* JoinOn *)
 | JUsing (how : string) (item : source) (fields : list term).  (* JoinUsing *)
 
 Record stmt := {
   s_clickhouse : bool;
-  s_from : list source; s_insert : option tref; s_update : option tref; s_with : list (string * subq);
+  s_from : list source; s_insert : option tref; s_update : option tref; s_with : list (string * squery);
   s_selects : list wterm; s_columns : list term; s_values : list (list wterm);
   s_wheres : option wterm; s_prewheres : option wterm; s_groupbys : list wterm; s_havings : option wterm;
-  s_orderbys : list (wterm * option string); s_joins : list join; s_updates : list (term * wterm);
+  s_orderbys : list (wterm * option string); s_joins : list qjoin; s_updates : list (term * wterm);
   s_star : list tref;              (* _select_star_tables, a set *)
   s_limit_by : list wterm          (* ClickHouse LIMIT BY columns *)
 }.
@@ -265,16 +265,16 @@ Definition occ_ot (o : option term) : bool := match o with Some t => occ t | Non
 Definition cov_ot (o : option term) : bool := match o with Some t => covered t | None => true end.
 Definition sub_foreigns (l : list term) : bool := forallb (sub_foreign A) l.
 
-(* ---- sub-queries (QueryBuilder.replace_table restricted to the three slots a subq has) ---- *)
-Definition subst_q (q : subq) : subq :=
+(* ---- sub-queries (QueryBuilder.replace_table restricted to the three slots a squery has) ---- *)
+Definition subst_q (q : squery) : squery :=
   {| sq_from := map sw_tbl (sq_from q); sq_selects := map subst (sq_selects q);
      sq_where := option_map subst (sq_where q); sq_ns := sq_ns q |}.
-Definition rep_q (q : subq) : subq :=
+Definition rep_q (q : squery) : squery :=
   {| sq_from := ifv (vis KQuery S__from) (map sw_tbl) (sq_from q);
      sq_selects := ifv (vis KQuery S__selects) (map rep) (sq_selects q);
      sq_where := ifv (vis KQuery S__wheres) (option_map rep) (sq_where q); sq_ns := sq_ns q |}.
-Definition occ_q (q : subq) : bool := existsb hit (sq_from q) || occs (sq_selects q) || occ_ot (sq_where q).
-Definition cov_q (q : subq) : bool :=
+Definition occ_q (q : squery) : bool := existsb hit (sq_from q) || occs (sq_selects q) || occ_ot (sq_where q).
+Definition cov_q (q : squery) : bool :=
   cov1 (vis KQuery S__from) true (existsb hit (sq_from q))
   && cov1 (vis KQuery S__selects) (covs (sq_selects q)) (occs (sq_selects q))
   && cov1 (vis KQuery S__wheres) (cov_ot (sq_where q)) (occ_ot (sq_where q)).
@@ -363,7 +363,7 @@ Definition occ_src (x : source) : bool :=
 (* a source is handled completely by the comparison iff it is a table, or A does not occur in it *)
 Definition cov_src (x : source) : bool := match x with SrcTable _ => true | _ => negb (occ_src x) end.
 
-Definition subst_join (j : join) : join :=
+Definition subst_join (j : qjoin) : qjoin :=
   match j with
   | JCross i => JCross (subst_src i)
   | JOn h i c => JOn h (subst_src i) (subst_wt c)
@@ -371,7 +371,7 @@ Definition subst_join (j : join) : join :=
   end.
 (* Join.replace_table CALLS item.replace_table: a sub-query has it, Table / AliasedQuery answer any attribute with a
    Field (Selectable.__getattr__) and calling that raises TypeError *)
-Definition rep_join (j : join) : res join :=
+Definition rep_join (j : qjoin) : res qjoin :=
   match j with
   | JCross i =>
       if vis KJoin S_item then
@@ -383,13 +383,13 @@ Definition rep_join (j : join) : res join :=
   | JOn h i c => Ok (JOn h (ifv (vis KJoinOn S_item) cmp_src i) (ifv (vis KJoinOn S_criterion) rep_wt c))
   | JUsing h i fs => Ok (JUsing h (ifv (vis KJoinUsing S_item) cmp_src i) (ifv (vis KJoinUsing S_fields) (map rep) fs))
   end.
-Definition occ_join (j : join) : bool :=
+Definition occ_join (j : qjoin) : bool :=
   match j with
   | JCross i => occ_src i
   | JOn _ i c => occ_src i || occ_wt c
   | JUsing _ i fs => occ_src i || occs fs
   end.
-Definition cov_join (j : join) : bool :=
+Definition cov_join (j : qjoin) : bool :=
   match j with
   | JCross i =>
       if vis KJoin S_item then
@@ -425,16 +425,16 @@ Definition subst_stmt (s : stmt) : stmt :=
      s_star := sw_star (s_star s);
      s_limit_by := map subst_wt (s_limit_by s) |}.
 
-Definition rep_withs (s : stmt) : res (list (string * subq)) :=
+Definition rep_withs (s : stmt) : res (list (string * squery)) :=
   if vis (skind s) S__with
   then match s_with s with
        | [] => Ok []
        | w => if with_items_replaceable then Ok (map (fun p => (fst p, rep_q (snd p))) w) else Err "TypeError"
        end
   else Ok (s_with s).
-Definition rep_joins (s : stmt) : res (list join) :=
+Definition rep_joins (s : stmt) : res (list qjoin) :=
   if vis (skind s) S__joins then mapM rep_join (s_joins s) else Ok (s_joins s).
-Definition rep_stmt_core (s : stmt) (withs : list (string * subq)) (joins : list join) : stmt :=
+Definition rep_stmt_core (s : stmt) (withs : list (string * squery)) (joins : list qjoin) : stmt :=
   let k := skind s in
   {| s_clickhouse := s_clickhouse s;
      s_from := ifv (vis k S__from) (map cmp_src) (s_from s);
